@@ -43,6 +43,7 @@ def extend_history(ctx, sess, regs, n_ops, odd_bounds=False):
 
 def run(ctx):
     ctx.proofs('Props/C20.v')
+    ctx.table_proofs('C20Tables.v')
     build.extract_and_driver()
     h = build.harness()
     quick = ctx.tier == 'quick'
